@@ -186,7 +186,8 @@ class BodyMarkuper:
 
     def iter_markup(self, chunk: bytes) -> Iterable[Tuple[str, Tuple[int, int]]]:
         if self.stopped:
-            raise StopMarkupException()
+            # everything after the closing delimiter is epilogue
+            return
         cur_meth = self.cur_meth
         abs_start_section = self.abs_start_section
         start_next_sec = 0
